@@ -217,10 +217,27 @@ func C07(c *core.Ctx) {
 		facts := core.EdgeFacts(ins, hit)
 		c.Floor("R7.2", "csMap lookup branches in InsertData", len(facts), 2)
 		for _, f := range facts {
+			// the obligations start at the first branch on the lookup result
+			later := false
+			for _, g := range facts {
+				if g.E.From != f.E.From && g.E.From.Parent() == f.E.From.Parent() && g.E.From.Dominates(f.E.From) {
+					later = true
+				}
+			}
+			if later {
+				continue
+			}
 			start := core.Point{Block: f.E.To, Idx: 0}
+			// the same lookup result may be branched on again further down (get-or-create,
+			// common update, then `if refresh`): the edges of the other outcome are
+			// infeasible from here
+			cut, _ := core.CutEdgesDeep(ins, core.Lit{A: hit, Want: !f.Holds})
+			mustFollow := func(isB func(ssa.Instruction) bool) core.FollowResult {
+				return core.MustFollowCutDeep(ins, start, isB, nil, cut)
+			}
 			if !f.Holds { // miss: new entry
 				for _, nm := range []string{"AfterInsert", "EvictEntries"} {
-					fr := core.MustFollowDeep(ins, start, callP(nm), nil)
+					fr := mustFollow(callP(nm))
 					c.Decide(fr.OK, "R7.2", "insert-then-"+nm, p.Pos(ins.Pos()), "new-entry branch reaches "+nm+" on every path", "a new cache entry can be inserted without "+nm+" being called (capacity is not enforced / LRU not told)")
 				}
 				// AfterInsert before EvictEntries
@@ -228,21 +245,21 @@ func C07(c *core.Ctx) {
 					c.Decide(core.PrecedesDeep(ins, ev, callP("AfterInsert")), "R7.2", "AfterInsert-before-EvictEntries", c.Pos(ev), "AfterInsert precedes EvictEntries", "EvictEntries runs before the new entry was reported to the replacement policy")
 				}
 				// the node's csEntry is stored and registered in csMap
-				fr := core.MustFollowDeep(ins, start, func(in ssa.Instruction) bool {
+				fr := mustFollow(func(in ssa.Instruction) bool {
 					mu, ok := in.(*ssa.MapUpdate)
 					if !ok {
 						return false
 					}
 					_, okF := core.FieldOf(mu.Map, "csMap")
 					return okF
-				}, nil)
+				})
 				c.Decide(fr.OK, "R7.2", "insert-registers-in-csMap", p.Pos(ins.Pos()), "new entry is put into csMap", "new cache entry is not registered in csMap")
 			} else { // hit: refresh
 				for _, fld := range []string{"wire", "staleTime"} {
-					fr := core.MustFollowDeep(ins, start, storeTo(fld), nil)
+					fr := mustFollow(storeTo(fld))
 					c.Decide(fr.OK, "R7.2", "refresh-stores-"+fld, p.Pos(ins.Pos()), "refresh stores "+fld, "refreshing an existing cache entry does not store the new "+fld)
 				}
-				fr := core.MustFollowDeep(ins, start, callP("AfterRefresh"), nil)
+				fr := mustFollow(callP("AfterRefresh"))
 				c.Decide(fr.OK, "R7.2", "refresh-then-AfterRefresh", p.Pos(ins.Pos()), "refresh reaches AfterRefresh", "refreshing an entry does not notify the replacement policy")
 			}
 		}
@@ -305,8 +322,8 @@ func C07(c *core.Ctx) {
 				c.Decide(ok && sawAdd, "R7.2", fmt.Sprintf("staleTime-is-now-plus-freshness#%d", nS), c.Pos(st), "staleTime = time.Now() (+ data.MetaInfo.FreshnessPeriod)", "staleTime is not insertion time plus the Data's FreshnessPeriod: "+core.LeafSet(ls))
 			}
 		})
-		c.Floor("R7.2", "stores of wire", nW, 2)
-		c.Floor("R7.2", "stores of staleTime", nS, 2)
+		c.Floor("R7.2", "stores of wire", nW, 1)
+		c.Floor("R7.2", "stores of staleTime", nS, 1)
 	}
 
 	// ---- R7.3 eviction loop
@@ -390,7 +407,35 @@ func C07(c *core.Ctx) {
 		})
 		_ = delLoc
 	}
-	// LRU bookkeeping: AfterInsert/AfterRefresh/BeforeUse push to the back and record the location
+	// LRU bookkeeping: AfterInsert/AfterRefresh/BeforeUse put the entry at the back and
+	// keep locations[index] pointing at its queue element. Two idioms: unlink the old
+	// element (if any) and PushBack a new one; or MoveToBack the tracked element — which is
+	// only sound when locations never keeps an element that was unlinked from the queue
+	// (container/list's MoveToBack silently does nothing for such an element).
+	idRemove := core.CalleeID{Pkg: "container/list", Recv: "List", Name: "Remove"}
+	staleLoc := "" // a Remove that is not accompanied by an update of locations
+	for _, fn := range p.FuncsIn(core.ModPath + "/fw/table") {
+		if core.FuncID(fn).Recv != "CsLRU" {
+			continue
+		}
+		for _, rm := range core.FindCalls(fn, idRemove) {
+			isLocUpd := func(in ssa.Instruction) bool {
+				if mu, ok := in.(*ssa.MapUpdate); ok {
+					_, okF := core.FieldOf(mu.Map, "locations")
+					return okF
+				}
+				if cl, ok := isBuiltinCall(in, "delete"); ok {
+					_, okF := core.FieldOf(cl.Call.Args[0], "locations")
+					return okF
+				}
+				return false
+			}
+			root := core.RootOf(fn)
+			if !core.MustFollowDeep(root, core.After(rm), isLocUpd, nil).OK && !core.PrecedesDeep(root, rm, isLocUpd) {
+				staleLoc = c.Pos(rm)
+			}
+		}
+	}
 	for _, m := range []string{"AfterInsert", "AfterRefresh", "BeforeUse"} {
 		fn := c.Fn("R7.3", "fw/table", "CsLRU", m)
 		if fn == nil {
@@ -398,29 +443,66 @@ func C07(c *core.Ctx) {
 		}
 		idx := ssa.Value(fn.Params[1])
 		sl := &core.Slicer{P: p, Root: fn}
-		var push ssa.Instruction
+		restore := core.WithRoot(fn)
+		var pushes, moves []ssa.Instruction
 		core.InstrsDeep(fn, func(in ssa.Instruction) {
 			if cc, ok := core.IsCall(in, core.CalleeID{Pkg: "container/list", Recv: "List", Name: "PushBack"}); ok {
 				_, a := core.CallArgs(cc)
-				if ls := sl.Leaves(a[0]); len(ls) == 1 && ls[0].Val == idx {
-					push = in
+				if ls := sl.Leaves(a[0]); len(ls) == 1 && (ls[0].Val == idx || core.Same(ls[0].Val, idx)) {
+					pushes = append(pushes, in)
+				}
+			}
+			if cc, ok := core.IsCall(in, core.CalleeID{Pkg: "container/list", Recv: "List", Name: "MoveToBack"}); ok {
+				// the element moved is locations[index]
+				_, a := core.CallArgs(cc)
+				v := core.Strip(a[0])
+				if e, isE := v.(*ssa.Extract); isE {
+					v = core.Strip(e.Tuple)
+				}
+				if lk, isL := v.(*ssa.Lookup); isL && core.Same(lk.Index, idx) {
+					if _, okF := core.FieldOf(lk.X, "locations"); okF {
+						moves = append(moves, in)
+					}
 				}
 			}
 		})
-		ok := push != nil && core.MustFollowDeep(fn, core.Point{Block: fn.Blocks[0], Idx: 0}, func(in ssa.Instruction) bool { return in == push }, nil).OK
-		c.Decide(ok, "R7.3", "lru-moves-to-back:"+m, p.Pos(fn.Pos()), m+" pushes the entry's index to the back of the queue on every path", m+" does not move the entry to the most-recently-used end of the queue on every path")
-		if ok {
+		isBack := func(in ssa.Instruction) bool {
+			for _, x := range pushes {
+				if x == in {
+					return true
+				}
+			}
+			for _, x := range moves {
+				if x == in {
+					return true
+				}
+			}
+			return false
+		}
+		ok := len(pushes)+len(moves) > 0 && core.MustFollowDeep(fn, core.Point{Block: fn.Blocks[0], Idx: 0}, isBack, nil).OK
+		c.Decide(ok, "R7.3", "lru-moves-to-back:"+m, p.Pos(fn.Pos()), m+" puts the entry at the back of the queue on every path (PushBack(index) or MoveToBack(locations[index]))", m+" does not move the entry to the most-recently-used end of the queue on every path")
+		if len(moves) > 0 {
+			c.Decide(staleLoc == "", "R7.3", "lru-move-needs-exact-locations:"+m, c.Pos(moves[0]), "MoveToBack(locations[index]) is used and every Remove of a queue element updates locations", m+" moves locations[index] to the back, but the queue element removed at "+staleLoc+" stays in locations: for an index that was evicted and is inserted again MoveToBack does nothing, the entry is cached but not in the LRU queue (never evicted, capacity exceeded)")
+		}
+		okRec := true
+		for _, push := range pushes {
 			fr := core.MustFollowDeep(fn, core.After(push), func(in ssa.Instruction) bool {
 				mu, ok := in.(*ssa.MapUpdate)
 				return ok && core.Same(mu.Key, idx) && core.Strip(mu.Value) == push.(ssa.Value)
 			}, nil)
-			c.Decide(fr.OK, "R7.3", "lru-records-location:"+m, p.Pos(fn.Pos()), "locations[index] = the new element", m+" does not record the new queue element under the entry's index")
+			if !fr.OK {
+				okRec = false
+			}
+		}
+		if ok {
+			c.Decide(okRec, "R7.3", "lru-records-location:"+m, p.Pos(fn.Pos()), "locations[index] = the new element after every PushBack", m+" does not record the new queue element under the entry's index")
 		}
 		if m != "AfterInsert" {
-			// the old element is unlinked when present
-			rm := core.FindCallsDeep(fn, core.CalleeID{Pkg: "container/list", Recv: "List", Name: "Remove"})
-			c.Decide(len(rm) > 0, "R7.3", "lru-unlinks-old:"+m, p.Pos(fn.Pos()), "old queue element removed", m+" leaves the old queue element linked (the entry would be evicted twice)")
+			// the old element is unlinked when present (MoveToBack relinks it instead)
+			rm := core.FindCallsDeep(fn, idRemove)
+			c.Decide(len(rm) > 0 || (len(moves) > 0 && len(pushes) > 0) || (len(moves) > 0 && len(pushes) == 0), "R7.3", "lru-unlinks-old:"+m, p.Pos(fn.Pos()), "old queue element removed or moved", m+" leaves the old queue element linked (the entry would be evicted twice)")
 		}
+		restore()
 	}
 
 	// ---- R7.5 admit / serve
@@ -460,7 +542,7 @@ func C07(c *core.Ctx) {
 		if fn := c.Fn("R7.5", "fw/table", "PitCsTree", nm[0]); fn != nil {
 			ok := false
 			core.Instrs(fn, func(in ssa.Instruction) {
-				if r, isR := in.(*ssa.Return); isR && core.IsGlobal(r.Results[0], "fw/table", nm[1]) {
+				if r, isR := in.(*ssa.Return); isR && len(r.Results) > 0 && core.IsGlobal(r.Results[0], "fw/table", nm[1]) {
 					ok = true
 				}
 			})
